@@ -74,9 +74,29 @@ func runR121(c *Ctx) {
 	} else {
 		// the less function compares the hash fields strictly
 		okLess := false
-		if mc, ok := sortCall.Call.Args[1].(*ssa.MakeClosure); ok {
-			less := mc.Fn.(*ssa.Function)
+		var less *ssa.Function
+		switch a := sortCall.Call.Args[1].(type) {
+		case *ssa.MakeClosure:
+			less = a.Fn.(*ssa.Function)
+		case *ssa.Function:
+			less = a // a literal that captures nothing (a three-way comparator over its two arguments)
+		}
+		if less != nil {
 			for _, r := range returnsOf(less) {
+				// cmp.Compare(a.hash, b.hash): the three-way form of a strict comparison
+				if cl, ok := r.Results[0].(*ssa.Call); ok && len(cl.Call.Args) == 2 {
+					sc := cl.Call.StaticCallee()
+					if sc != nil && sc.Origin() != nil {
+						sc = sc.Origin()
+					}
+					if sc != nil && sc.Pkg != nil && sc.Pkg.Pkg.Path() == "cmp" && sc.Name() == "Compare" {
+						fx, _ := loadedField(cl.Call.Args[0])
+						fy, _ := loadedField(cl.Call.Args[1])
+						if fx != nil && fy != nil && fx.Name() == "hash" && fy.Name() == "hash" {
+							okLess = true
+						}
+					}
+				}
 				if bo, ok := r.Results[0].(*ssa.BinOp); ok && (bo.Op == token.LSS || bo.Op == token.GTR) {
 					fx, _ := loadedField(bo.X)
 					fy, _ := loadedField(bo.Y)
@@ -633,7 +653,18 @@ func runR126(c *Ctx) {
 		// success return only on nil edge
 		for _, r := range returnsOf(fn) {
 			if isNilConst(r.Results[1]) && !dominatedByErrNil(r.Block(), cl) {
-				okWait = false
+				// a way out before any shard was asked (nothing was started, nothing can have failed) is fine
+				started := false
+				allInstrs(fn, func(gi ssa.Instruction) {
+					if gc, ok := gi.(*ssa.Call); ok && gc.Call.StaticCallee() != nil && gc.Call.StaticCallee().Name() == "Go" && gc.Call.StaticCallee().Signature.Recv() != nil {
+						if reachableAvoiding(gc, r, func(ssa.Instruction) bool { return false }) {
+							started = true
+						}
+					}
+				})
+				if started {
+					okWait = false
+				}
 			}
 		}
 	})
